@@ -5,6 +5,7 @@ package couchbase
 import (
 	"github.com/couchbase/gocbcore/v10"
 
+	"github.com/Trendyol/go-dcp/membership"
 	"github.com/Trendyol/go-dcp/models"
 	"github.com/Trendyol/go-dcp/wrapper"
 )
@@ -80,4 +81,16 @@ func (v *VerifRM) Absent(vbID uint16, replica int) {
 	if len(replicas) > replica {
 		replicas[replica].SetAbsent()
 	}
+}
+
+// VerifMembershipMonitor runs one monitor() round of a Couchbase membership (the loop body of startMonitor).
+func VerifMembershipMonitor(m membership.Membership) { m.(*cbMembership).monitor() }
+
+// VerifMembershipHeartbeat runs one heartbeat() (the loop body of startHeartbeat).
+func VerifMembershipHeartbeat(m membership.Membership) { m.(*cbMembership).heartbeat() }
+
+// VerifMembershipKeys returns the instance document key and the index document key of a Couchbase membership.
+func VerifMembershipKeys(m membership.Membership) (id string, index string) {
+	h := m.(*cbMembership)
+	return string(h.id), string(h.instanceAll)
 }
